@@ -2,6 +2,6 @@ CONSTANTS NodeId = 5  HbInit = 2  Walk = FALSE  WalkLen = 0  EvCap = 3  PoolN = 
 CONSTANT Letters <- L09  HcInit <- HC09  ProbeLetters <- P09
 INIT Init
 NEXT Next
-VIEW View
+VIEW ViewM
 CONSTRAINT Bound
 INVARIANTS InvC09 InvC10 InvC11 InvC20
